@@ -19,7 +19,19 @@ from happysimulator.sketching.hyperloglog import HyperLogLog
 from happysimulator.sketching.reservoir import ReservoirSampler
 
 from hsverif.scenarios import Scenario, scenario
-from hsverif.scenarios._kit import ConstantLatency, Entity, Event, ExponentialLatency, Instant, P, Proc, ev, make_sim
+from hsverif.scenarios._kit import (
+    FRONT_STAGES,
+    ConstantLatency,
+    Entity,
+    Event,
+    ExponentialLatency,
+    Instant,
+    P,
+    Proc,
+    ev,
+    front_stage,
+    make_sim,
+)
 
 
 class FanOut(Entity):
@@ -50,7 +62,7 @@ def collectors_behind_server(seed, params):
     a CountMin SketchCollector (weighted) fed with the completed requests."""
     p = P(params, seed)
     rng = random.Random(seed)
-    topk = TopKCollector("topk", k=3, value_extractor=lambda e: _md(e, "customer"), count_extractor=lambda e: _md(e, "weight", 1), seed=seed)
+    topk = TopKCollector("topk", k=p.count(0, 3), value_extractor=lambda e: _md(e, "customer"), count_extractor=lambda e: _md(e, "weight", 1), seed=seed)
     quant = QuantileEstimator("latency", value_extractor=_latency, compression=50.0, seed=seed)
     cms = SketchCollector(
         "cms",
@@ -71,7 +83,7 @@ def collectors_behind_server(seed, params):
 @scenario("sketching.sketch_collectors_each_sketch", "sketching")
 def sketch_collectors_each_sketch(seed, params):
     """One SketchCollector per sketch type (HyperLogLog, BloomFilter, ReservoirSampler,
-    CountMin) behind a two-stage Server pipeline with exponential service times; the
+    CountMin) behind a pipeline of counts[0] Servers (constant / exponential service); the
     collectors are cleared mid-run by direct calls from a harness event."""
     p = P(params, seed)
     rng = random.Random(seed)
@@ -84,8 +96,14 @@ def sketch_collectors_each_sketch(seed, params):
     topk = TopKCollector("topk", k=2, value_extractor=lambda e: _md(e, "user"), seed=seed)
     quant = QuantileEstimator("q", value_extractor=lambda e: float(_md(e, "i", 0)), seed=seed)
     tee = FanOut("tee", [*cols, topk, quant])
-    s2 = Server("stage2", concurrency=1, service_time=ExponentialLatency(p.lat(1)), queue_capacity=20, downstream=tee)
-    s1 = Server("stage1", concurrency=p.cap(2), service_time=ConstantLatency(p.lat(0)), queue_capacity=20, downstream=s2)
+    # counts[0] Server stages in a row (default 2); the first one is the entry
+    stages: list = []
+    nxt = tee
+    for j in reversed(range(p.count(0, 2, hi=5))):
+        svc = ConstantLatency(p.lat(j)) if j % 2 == 0 else ExponentialLatency(p.lat(j))
+        nxt = Server(f"stage{j + 1}", concurrency=p.cap(2) if j == 0 else 1, service_time=svc, queue_capacity=40, downstream=nxt)
+        stages.insert(0, nxt)
+    s1 = stages[0]
 
     def clear_all(proc, event):
         for c in cols:
@@ -96,12 +114,13 @@ def sketch_collectors_each_sketch(seed, params):
 
     clr = Proc("clearer", clear_all)
     arr = p.arrivals(12)
-    sim = make_sim([s1, s2, tee, clr, topk, quant, *cols], p.end())
+    sim = make_sim([*stages, tee, clr, topk, quant, *cols], p.end())
+    nusers = p.count(1, 6)
     for i, t in enumerate(arr):
-        sim.schedule(ev(t, "Request", s1, i=i, user=f"u{rng.randrange(6)}"))
+        sim.schedule(ev(t, "Request", s1, i=i, user=f"u{rng.randrange(nusers)}"))
     mid = sorted(arr)[len(arr) // 2] + int(p.lat(0) * 1e9) + 1
     sim.schedule(ev(mid, "clear", clr))
-    return Scenario(sim, {"stage1": s1, "stage2": s2, "topk": topk, "q": quant, **{c.name: c for c in cols}}, "sketching", True, len(arr) + 1)
+    return Scenario(sim, {**{st.name: st for st in stages}, "topk": topk, "q": quant, **{c.name: c for c in cols}}, "sketching", True, len(arr) + 1)
 
 
 @scenario("sketching.collectors_fed_by_source", "sketching")
@@ -127,3 +146,60 @@ def collectors_fed_by_source(seed, params):
     for i, t in enumerate(arr):
         sim.schedule(ev(t, "Request", srv, context={"customer": rng.choice(["c0", "c1", "zz"]), "request_id": 10_000 + i}, i=i))
     return Scenario(sim, {"srv": srv, "topk": topk, "latency": quant, "hll": hll, "source": src}, "sketching", True, len(arr) + int(stop * 20))
+
+
+@scenario("sketching.composed_collectors_behind_front_stage", "sketching")
+def composed_collectors_behind_front_stage(seed, params):
+    """Front stage (x.v % 5) -> Server -> collectors: the latency fed to the QuantileEstimator
+    is arrival time - creation time, i.e. the stage delay plus queueing and service."""
+    p = P(params, seed)
+    v = int(p.x("v", seed * 7 + 3))
+    fk = FRONT_STAGES[v % 5]
+    topk = TopKCollector("topk", k=p.count(0, 2), value_extractor=lambda e: _md(e, "customer"), seed=seed)
+    quant = QuantileEstimator("latency", value_extractor=_latency, compression=20.0 + 10 * p.count(1, 3), seed=seed)
+    hll = SketchCollector("hll", sketch=HyperLogLog(precision=4, seed=seed), value_extractor=lambda e: _md(e, "i"))
+    tee = FanOut("tee", [topk, quant, hll])
+    srv = Server("srv", concurrency=p.cap(2), service_time=ConstantLatency(p.lat(1)), queue_capacity=40, downstream=tee)
+    entry, fents = front_stage(fk, p, srv, 0)
+    arr = p.arrivals(10)
+    sim = make_sim([srv, tee, topk, quant, hll, *fents], p.end())
+    nc = p.count(2, 3)
+    for i, t in enumerate(arr):
+        sim.schedule(ev(t, "Request", entry, i=i, customer=f"c{i % nc}"))
+    sc = Scenario(sim, {"topk": topk, "latency": quant, "hll": hll}, "sketching", True, len(arr))
+    sc.notes = f"front={fk}"
+    return sc
+
+
+@scenario("sketching.degenerate_collectors", "sketching")
+def degenerate_collectors(seed, params):
+    """Extractors that always return None, k=1, weight 0, a minimal t-digest compression, a
+    reservoir of one slot, a one-bit Bloom filter; everything cleared twice and queried while
+    empty (harness calls) before and after the traffic."""
+    p = P(params, seed)
+    none_topk = TopKCollector("topk.none", k=1, value_extractor=lambda e: None, seed=seed)
+    one_topk = TopKCollector("topk.one", k=1, value_extractor=lambda e: _md(e, "i"), count_extractor=lambda e: _md(e, "w", 1), seed=seed)
+    none_q = QuantileEstimator("q.none", value_extractor=lambda e: None, seed=seed)
+    small_q = QuantileEstimator("q.small", value_extractor=lambda e: 0.0, compression=1.0, seed=seed)
+    res = SketchCollector("reservoir.one", sketch=ReservoirSampler(size=1, seed=seed), value_extractor=lambda e: _md(e, "i"))
+    bloom = SketchCollector("bloom.bit", sketch=BloomFilter(size_bits=1, num_hashes=1, seed=seed), value_extractor=lambda e: _md(e, "i"))
+    cms = SketchCollector("cms.zero_weight", sketch=CountMinSketch(width=1, depth=1, seed=seed), value_extractor=lambda e: _md(e, "i"), weight_extractor=lambda e: 1 + _md(e, "i", 0) % 2)
+    cols = [none_topk, one_topk, none_q, small_q, res, bloom, cms]
+    tee = FanOut("tee", cols)
+    srv = Server("srv", concurrency=1, service_time=ConstantLatency(p.lat(0)), queue_capacity=40, downstream=tee)
+
+    def probe(proc, event):
+        proc.log.append((none_q.summary().count, small_q.summary().count, len(one_topk.top()), one_topk.estimate("nope"), none_topk.total_count))
+        for c in cols:
+            c.clear()
+            c.clear()
+        proc.done += 1
+
+    pr = Proc("probe", probe)
+    arr = p.arrivals(6)
+    sim = make_sim([srv, tee, pr, *cols], p.end())
+    sim.schedule(ev(min(arr), "probe", pr))
+    for i, t in enumerate(arr):
+        sim.schedule(ev(t, "Request", srv, i=i, w=1 + i % 2))
+    sim.schedule(ev(max(arr) + int(p.lat(0) * 1e9 * (len(arr) + 2)) + 1, "probe", pr))
+    return Scenario(sim, {"srv": srv, **{c.name: c for c in cols}, "probe": pr}, "sketching", True, len(arr) + 2)
